@@ -44,10 +44,15 @@ Theorem C06_every_history_satisfies_the_invariant : forall s, hreach s -> Inv s.
 Proof. exact hreach_inv. Qed.
 Print Assumptions C06_every_history_satisfies_the_invariant.
 
-(* ---- clause: "and schedules exactly one warm-up" ----------------------------- *)
+(* ---- clause: "and schedules exactly one warm-up" -----------------------------
+   An initialize whose construct_model raises is aborted (ResRaised): the
+   exception leaves initialize before the warm-up is scheduled, no warm-up event
+   is pending and the simulator is not initialised. *)
 Theorem C06_exactly_one_warmup_scheduled : forall p s r,
   running s = false -> r_start r <= r_warm r ->
-  exists n, nid s <= n /\ warmups (fst (do_init p s r)) = [mkEv (r_warm r) 10 n HWarm 0].
+  (snd (do_init p s r) = ResOk
+   /\ exists n, nid s <= n /\ warmups (fst (do_init p s r)) = [mkEv (r_warm r) 10 n HWarm 0])
+  \/ (snd (do_init p s r) = ResRaised /\ warmups (fst (do_init p s r)) = []).
 Proof. exact exactly_one_warmup_scheduled. Qed.
 Print Assumptions C06_exactly_one_warmup_scheduled.
 
@@ -56,7 +61,9 @@ Print Assumptions C06_exactly_one_warmup_scheduled.
    [x_init true]: initialize as repaired in /repo 530d336 (the output-statistics
    map is emptied before construct_model); [x_init false]: the pinned code. *)
 Theorem C06_initialize_never_already_registered : forall xp x r,
-  NoDup (keys_of (xp_stats xp)) -> running (x_sim x) = false -> snd (x_init true xp x r) = XOk.
+  NoDup (keys_of (xp_stats xp)) -> running (x_sim x) = false ->
+  snd (x_init true xp x r) = (match snd (do_init (xp_prog xp) (x_sim x) r) with ResRaised => XRaised | _ => XOk end)
+  /\ snd (x_init true xp x r) <> XAlreadyRegistered /\ snd (x_init true xp x r) <> XRefused.
 Proof. exact x_init_never_already_registered. Qed.
 Print Assumptions C06_initialize_never_already_registered.
 
@@ -90,14 +97,18 @@ Print Assumptions C06_pinned_second_initialize_refuted.
    happened in the replication before" ------------------------------------------
    s: any state that is not running (no reachability needed).  Both simulators
    are initialised for replication r of program p and then given the same
-   further commands cs (any commands, further initialisations included). *)
+   further commands cs (any commands, further initialisations included).
+   The initialize is never refused; it is accepted (ResOk) on both or - when
+   construct_model raises - aborted (ResRaised) on both, and the theorem holds
+   in either case, also for histories and continuations that contain aborted
+   initialisations. *)
 Theorem C06_reinit_fresh : forall p r s fuel cs,
   running s = false ->
   let a := fst (do_init p s r) in
   let b := fst (do_init p (init_sim (strat s)) r) in
   let ra := run_cmds fuel p a cs in
   let rb := run_cmds fuel p b cs in
-  snd (do_init p s r) = ResOk
+  (snd (do_init p s r) = snd (do_init p (init_sim (strat s)) r) /\ snd (do_init p s r) <> ResRefused)
   /\ snd ra = snd rb
   /\ logs_of (fst ra) = lapp (logs_of (fst rb)) (logs_of s).
 Proof. exact reinit_fresh. Qed.
@@ -172,7 +183,8 @@ Theorem C06_composed_reinit_fresh : forall nint M r y pre' g fuel hf h,
   let ra := y_hist nint fuel hf a h in
   let rb := y_hist nint fuel hf b h in
   let ya := fst (fst ra) in let yb := fst (fst rb) in
-  snd (fst (ydo_init nint M hf y r)) = ResOk
+  (snd (fst (ydo_init nint M hf y r)) = snd (fst (ydo_init nint M hf (y0p (strat (y_sim y)) pre') r))
+   /\ snd (fst (ydo_init nint M hf y r)) <> ResRefused)
   /\ snd (fst ra) = snd (fst rb) /\ snd ra = snd rb
   /\ logs_of (y_sim ya) = lapp (logs_of (y_sim yb)) (logs_of (y_sim y))
   /\ y_dlv ya = y_dlv yb ++ y_dlv y
@@ -238,4 +250,22 @@ Example ex_statistics_rebuilt :
   /\ reported (x_run 100 ex_xp (fst (x_init true ex_xp ex_x ex_r)) ex_cs)
      = reported (x_run 100 ex_xp (fst (x_init true ex_xp (x0 SWarnPause) ex_r)) ex_cs)
   /\ map fst (reported (x_run 100 ex_xp (fst (x_init true ex_xp ex_x ex_r)) ex_cs)) = [0%nat; 1%nat].
+Proof. vm_compute. repeat split. Qed.
+
+(* an ABORTED initialise in the history (construct_model of ex_pf raises after
+   having scheduled an event): the simulator is left not initialised with that
+   event pending and a live worker; initialising it for ex_p1 afterwards still
+   equals the brand-new simulator -- and initialising it for ex_pf again is
+   aborted on both alike *)
+Definition ex_pf : program := [ [ASched (MAbs (TNum 4)) 5 1; AObs 0 5; AFail; ASched (MAbs (TNum 8)) 5 1]; [AObs 0 1] ].
+Definition ex_sa : sim := run_hist 100 ex_s [(ex_pf, CInit (mkRepl 0 0 40)); (ex_pf, CStart)].
+
+Example ex_aborted_initialise_in_history :
+  snd (do_init ex_pf ex_s (mkRepl 0 0 40)) = ResRaised
+  /\ rs ex_sa = RNotInit /\ ps ex_sa = PNotInit /\ worker ex_sa = WAlive /\ length (pend ex_sa) = 1%nat
+  /\ flag ex_sa = false /\ running ex_sa = false
+  /\ (let ra := run_cmds 100 ex_p1 (fst (do_init ex_p1 ex_sa ex_r)) ex_cs in
+      let rb := run_cmds 100 ex_p1 (fst (do_init ex_p1 (init_sim SWarnPause) ex_r)) ex_cs in
+      ps (fst rb) = PEnded /\ logs_of (fst ra) = lapp (logs_of (fst rb)) (logs_of ex_sa))
+  /\ snd (do_init ex_pf ex_sa ex_r) = ResRaised /\ snd (do_init ex_pf (init_sim SWarnPause) ex_r) = ResRaised.
 Proof. vm_compute. repeat split. Qed.
